@@ -3,6 +3,8 @@ real Sequence wrappers."""
 from vmon import gen
 from vmon.checks.common import obs, fail, both_views, random_prefix, apply_prefix
 
+EXTREMES = "seq"   # worker re-labels every sixth case to the ends of the legal ranges (gen.extremify)
+RESTATE = "seq"    # worker adds a signature restating the one in force to every fifth case (gen.restate_signatures)
 PROP = "C18"
 MONITORS = ["c18"]
 INSITU = {"k": "pad or cutoff or scale or tokenisation or bar or composition or channel"}
